@@ -232,7 +232,7 @@ func init() {
 	fw.Register(&fw.Property{
 		ID:          "C01",
 		Level:       "exploration",
-		Rule:        "generated CSVs (rows 0..2000 incl. block-edge counts; 1..6 columns; hostile cell alphabet; cells at 65534/65535/65536/70000 B; rows crossing 64 KiB; empty key; duplicates incl. at block edges) x key choice (any subset/order of <=3 columns, none) x delimiter (incl. a two-byte one) x run size (0..one-chunk-per-row spills, auto) x workers {1,2,3,4,8,16} x store {mem, badger} x entry {ingest.IngestTable, in-process wrgl commit + wrgl export, the cached branch-file commit (file rewritten in the cache entry's second) + wrgl export}; plus spill-fault cases (one spill file cut inside a length prefix between reading and merging: the ingest must fail or still be right); oracle: encoding/csv parse of the exact bytes -> sort+dedupe model, compared with block read-back and export; every table also passes the structural monitor; distinct_nontrivial = distinct (key class, size class, config, duplicates, table seed) with >=2 rows",
+		Rule:        "generated CSVs (header names also differing only in case; rows 0..2000 incl. block-edge counts; 1..6 columns; hostile cell alphabet; cells at 65534/65535/65536/70000 B; rows crossing 64 KiB; empty key; duplicates incl. at block edges) x key choice (any subset/order of <=3 columns, none) x delimiter (incl. a two-byte one) x run size (0..one-chunk-per-row spills, auto) x workers {1,2,3,4,8,16} x store {mem, badger} x entry {ingest.IngestTable, in-process wrgl commit + wrgl export, the first commit of a branch from its configured file, the cached branch-file commit (optionally with a stored delimiter and a `diff --branch-file` in between) (file rewritten in the cache entry's second) + wrgl export}; plus spill-fault cases (one spill file cut inside a length prefix between reading and merging: the ingest must fail or still be right); oracle: encoding/csv parse of the exact bytes -> sort+dedupe model, compared with block read-back and export; every table also passes the structural monitor; distinct_nontrivial = distinct (key class, size class, config, duplicates, table seed) with >=2 rows",
 		Assumptions: []string{"encoding/csv is the reference for what a CSV file says", "which of several rows with the same key survives is free", "single-column tables with an empty cell are not exported through the CLI path (encoding/csv writes them as blank lines)"},
 		MemLimitKB:  8 << 20,
 		Gen: func(tier string, seed int64) []fw.Case {
